@@ -336,3 +336,11 @@ Definition C06_accepts (acts : list action) (obs : list value) : bool :=
   | Some vs => values_eqb vs obs
   | None => false
   end.
+
+(* ------------------------------------------------------------------ order violations (used by C12_reverse_partial_sharp) *)
+(* x occurs before y in l *)
+Definition before (l : list nat) (x y : nat) : Prop := exists l1 l2, l = l1 ++ x :: l2 /\ In y l2.
+(* s is a sub-context of c, at any depth *)
+Inductive SubOf : rctx -> rctx -> Prop :=
+| sub_here : forall c s, In (Sub s) c -> SubOf c s
+| sub_deep : forall c s' s, In (Sub s') c -> SubOf s' s -> SubOf c s.
